@@ -9,7 +9,7 @@ def run(res, tier):
         "source and destination cells of the tested impulses lie in [1, n-2] ('clear of the grid border')",
         "rows are independent (checked differentially by C08); FP interior columns are 4 .. n-5",
         "OpenCL paths compiled out"]
-    c1 = _api.run(res, tier, ["W_weights"], extra=["--prop", "C01"])
+    c1 = _api.run(res, tier, ["W_weights"], extra=["--prop", "C01"], blocks=(1,))
     c2 = _api.run(res, tier, ["C01_conserve"])
     return lambda v: (c1(v) if (v.get("replay") or {}).get("harness") == "W_weights" else c2(v))
 
